@@ -174,6 +174,8 @@ func pools(r *rng.R) (core, full []val) {
 		val{cat(pushI(1), pushI(2), pushI(2), op(s.PACKSTRUCT)), "struct2", "struct[2,1]"},
 		val{cat(pushI(1), pushI(2), pushI(1), op(s.PACKMAP)), "map1", "map{2:1}"},
 		val{cat(op(s.NEWSTRUCT0), pushI(1), op(s.PACKSTRUCT)), "structS", "struct[struct[]]"},
+		val{cat(pushI(10), pushData([]byte("a")), pushI(20), pushI(2), pushI(30), op(s.PUSHT), pushI(3), op(s.PACKMAP)), "map3", "map{true:30,2:20,'a':10}"},
+		val{cat(op(s.PUSHNULL), pushData([]byte{7}), pushI(5), op(s.NEWSTRUCT0), pushI(4), op(s.PACK)), "arr4", "array[struct[],5,07,null]"},
 		val{cat(pushI(3), op(s.NEWARRAY)), "arr3n", "array[null x3]"},
 		val{op(s.PUSHA, 2, 0, 0, 0), "ptr", "pointer+2"},
 	)
@@ -348,6 +350,7 @@ type seqGen struct {
 	max    int
 	names  []string
 	locals int
+	args   int
 	static int
 	ints   []*big.Int
 }
@@ -551,9 +554,22 @@ var seqMenu = []seqOp{
 // genSeq builds one random typed sequence of at most 12 instructions.
 func genSeq(r *rng.R, ints []*big.Int) ([]byte, []string) {
 	g := &seqGen{r: r, max: 12, ints: ints}
-	if r.Chance(1, 4) {
-		g.locals = 1 + r.Intn(2)
-		g.emit("INITSLOT", op(s.INITSLOT, byte(g.locals), 0))
+	if r.Chance(1, 3) {
+		g.locals = r.Intn(3)
+		g.args = r.Intn(3)
+		if g.locals+g.args == 0 {
+			g.locals = 1
+		}
+		for i := 0; i < g.args; i++ {
+			if i == 0 && r.Chance(1, 10) {
+				continue // one argument short
+			}
+			g.produce(aX)
+		}
+		for i := 0; i < g.args; i++ {
+			g.popT()
+		}
+		g.emit("INITSLOT", op(s.INITSLOT, byte(g.locals), byte(g.args)))
 	}
 	if r.Chance(1, 6) {
 		g.static = 1 + r.Intn(2)
@@ -568,7 +584,7 @@ func genSeq(r *rng.R, ints []*big.Int) ([]byte, []string) {
 		switch k := r.Intn(20); {
 		case k < 3: // stack manipulation
 			g.stackOp()
-		case k < 5 && (g.locals > 0 || g.static > 0 || r.Chance(1, 10)): // slots
+		case k < 5 && (g.locals > 0 || g.args > 0 || g.static > 0 || r.Chance(1, 10)): // slots
 			g.slotOp()
 		case k == 5: // conversion / type test
 			if !g.has(1) {
@@ -697,7 +713,20 @@ func (g *seqGen) stackOp() {
 func (g *seqGen) slotOp() {
 	r := g.r
 	i := r.Intn(3)
-	switch r.Intn(4) {
+	switch r.Intn(6) {
+	case 4:
+		if r.Chance(1, 5) {
+			g.emit("LDARG", op(s.LDARG, byte(i)))
+		} else {
+			g.emit("LDARG", op(s.LDARG0+s.Op(i)))
+		}
+		g.pushT(aX)
+	case 5:
+		if !g.has(1) {
+			g.produce(aX)
+		}
+		g.popT()
+		g.emit("STARG", op(s.STARG0+s.Op(i)))
 	case 0:
 		g.emit("LDLOC", op(s.LDLOC0+s.Op(i)))
 		g.pushT(aX)
@@ -992,8 +1021,16 @@ func genCtl(r *rng.R) ([]byte, []string, bool) {
 	for _, f := range g.funcs {
 		g.mark(f)
 		fb := g.n + 2 + r.Intn(6)
-		if r.Chance(1, 3) {
-			g.ins("INITSLOT", op(s.INITSLOT, 1, 0))
+		if r.Chance(1, 2) {
+			na := r.Intn(3)
+			nl := r.Intn(2)
+			if na+nl == 0 {
+				nl = 1
+			}
+			g.ins("INITSLOT", op(s.INITSLOT, byte(nl), byte(na)))
+			for k := 0; k < na; k++ {
+				g.ins("LDARG", op(s.LDARG0+s.Op(k)))
+			}
 		}
 		g.block(fb)
 		if r.Chance(5, 6) {
@@ -1217,7 +1254,11 @@ func genCompound(r *rng.R) ([]byte, []string) {
 			e("STSFLD", op(s.STSFLD0+s.Op(r.Intn(3))))
 		case 11:
 			ld()
-			e("REVERSEITEMS", op(s.REVERSEITEMS))
+			if r.Bool() {
+				e("REVERSEITEMS", op(s.REVERSEITEMS))
+			} else {
+				e("KEYS", op(s.KEYS))
+			}
 		case 12:
 			ld()
 			e("UNPACK", op(s.UNPACK))
@@ -1272,4 +1313,46 @@ func limitsCase(i int) ([]byte, string) {
 		p := nk[(i/3)%len(nk)]
 		return cat(op(s.NEWARRAY0), op(s.DUP), fan(p[0], p[1]), op(s.APPEND), op(s.SIZE)), fmt.Sprintf("clone-subitems|%d", p[0]*(p[1]+1))
 	}
+}
+
+// slotCase enumerates slot initialisation and access: l locals, a arguments,
+// p values pushed beforehand, one access kind at index idx.
+func slotCase(i int) ([]byte, string) {
+	x := mixRadix(i, 4, 4, 5, 8, 8)
+	l, a, p, kind, idx := x[0], x[1], x[2], x[3], x[4]
+	var sc []byte
+	for k := 0; k < p; k++ {
+		sc = append(sc, pushI(int64(10+k))...)
+	}
+	sc = append(sc, op(s.INITSLOT, byte(l), byte(a))...)
+	ix := func(base0, gen s.Op) []byte {
+		if idx < 7 {
+			return op(base0 + s.Op(idx))
+		}
+		return op(gen, byte(idx))
+	}
+	switch kind {
+	case 0:
+		sc = append(sc, ix(s.LDARG0, s.LDARG)...)
+	case 1:
+		sc = append(sc, ix(s.LDLOC0, s.LDLOC)...)
+	case 2:
+		sc = cat(sc, op(s.PUSH7), ix(s.STARG0, s.STARG), ix(s.LDARG0, s.LDARG))
+	case 3:
+		sc = cat(sc, op(s.PUSH7), ix(s.STLOC0, s.STLOC), ix(s.LDLOC0, s.LDLOC))
+	case 4: // every argument and local, in order
+		for k := 0; k < a; k++ {
+			sc = append(sc, op(s.LDARG0+s.Op(k))...)
+		}
+		for k := 0; k < l; k++ {
+			sc = append(sc, op(s.LDLOC0+s.Op(k))...)
+		}
+	case 5: // static slot
+		sc = cat(sc, op(s.INITSSLOT, byte(l)), op(s.PUSH7), ix(s.STSFLD0, s.STSFLD), ix(s.LDSFLD0, s.LDSFLD))
+	case 6: // second initialisation
+		sc = cat(sc, op(s.INITSLOT, byte(a), byte(l)))
+	default: // slots are per frame: a callee sees its own
+		sc = cat(sc, op(s.CALL, 3), op(s.RET), op(s.PUSH5), op(s.PUSH6), op(s.INITSLOT, byte(a), byte(l)), ix(s.LDARG0, s.LDARG), op(s.RET))
+	}
+	return sc, fmt.Sprintf("slots|l%d|a%d|p%d|k%d|i%d", l, a, p, kind, idx)
 }
